@@ -744,6 +744,23 @@ fn single_getters(o: &mut Outcome, st: &Status) -> Vec<(usize, Option<RD>)> {
     v
 }
 
+/// An error type of somebody else's that has a tonic status as its source.
+#[derive(Debug)]
+struct LayerError(Box<Status>);
+impl std::fmt::Display for LayerError {
+    fn fmt(&self, f: &mut std::fmt::Formatter<'_>) -> std::fmt::Result {
+        write!(f, "layer error")
+    }
+}
+impl std::error::Error for LayerError {
+    fn source(&self) -> Option<&(dyn std::error::Error + 'static)> {
+        Some(&*self.0)
+    }
+}
+fn clone_status(s: &Status) -> Status {
+    Status::with_details_and_metadata(s.code(), s.message(), Bytes::copy_from_slice(s.details()), s.metadata().clone())
+}
+
 /// Write `status` to headers, judge the raw details blob independently, read it back.
 /// `want` = the details in the order attached; `ordered` = whether the wire order is part of the
 /// expectation (list API) or not (set API).
@@ -965,7 +982,17 @@ fn set_body(c: &SetCase, _ch: &Chooser) -> Outcome {
     let mut obs = String::new();
     if let Some(back) = through_headers(&mut o, &mut obs, &status, c.code as i32, msg, &want, false) {
         judge_getters(&mut o, &mut obs, &back, &want, false);
-        // the same headers as a peer that PADS its base64 would send them (receivers must accept both)
+        // the same status reaching tonic as the source of another error (a tower layer's error type)
+        {
+            let wrapped: Box<dyn std::error::Error + Send + Sync> = Box::new(LayerError(Box::new(clone_status(&status))));
+            let seen = Status::from_error(wrapped);
+            let before = o.violations.len();
+            judge_getters(&mut o, &mut obs, &seen, &want, false);
+            for v in o.violations.iter_mut().skip(before) {
+                v.0 = format!("wrapped-in-layer-error:{}", v.0);
+            }
+        }
+        //  the same headers as a peer that PADS its base64 would send them (receivers must accept both)
         {
             let mut h = HeaderMap::new();
             if status.add_header(&mut h).is_ok() {
@@ -1086,7 +1113,17 @@ fn vec_body(c: &VecCase, _ch: &Chooser) -> Outcome {
     let mut obs = String::new();
     if let Some(back) = through_headers(&mut o, &mut obs, &status, c.code as i32, msg, &want, true) {
         judge_getters(&mut o, &mut obs, &back, &want, true);
-        // the same headers as a peer that PADS its base64 would send them (receivers must accept both)
+        // the same status reaching tonic as the source of another error (a tower layer's error type)
+        {
+            let wrapped: Box<dyn std::error::Error + Send + Sync> = Box::new(LayerError(Box::new(clone_status(&status))));
+            let seen = Status::from_error(wrapped);
+            let before = o.violations.len();
+            judge_getters(&mut o, &mut obs, &seen, &want, true);
+            for v in o.violations.iter_mut().skip(before) {
+                v.0 = format!("wrapped-in-layer-error:{}", v.0);
+            }
+        }
+        //  the same headers as a peer that PADS its base64 would send them (receivers must accept both)
         {
             let mut h = HeaderMap::new();
             if status.add_header(&mut h).is_ok() {
@@ -1509,7 +1546,7 @@ pub fn property(tier: Tier) -> Property {
     let set = Section::new(
         "set-roundtrip",
         cfg.clone(),
-        "cases: every subset of the ten standard kinds (1024) x value variant {all-default, ordinary, awkward, mixed} (RetryInfo in {None, 0, 1 ns, 315 576 000 000.999999999 s}; 0..3 violations/links; empty/non-ASCII/control/200+-byte strings; ErrorInfo.metadata with 0/1/2 entries incl. empty key) x with/without metadata x {set_*, add_*} builders; code and message rotate over 17 codes x 4 messages [thorough: full product]. Path: with_error_details[_and_metadata] -> add_header -> hand-written base64+protobuf reader of grpc-status-details-bin (embedded code/message == outer, type URLs, field values) -> from_header_map -> check_/get_error_details, check_/get_error_details_vec, ten get_details_*; the getters are judged again on the status read from the same headers with the details value base64-PADDED (a peer that pads), and on the status a unary caller receives when the peer sends it in trailers after response headers. Non-trivial = at least one detail attached",
+        "cases: every subset of the ten standard kinds (1024) x value variant {all-default, ordinary, awkward, mixed} (RetryInfo in {None, 0, 1 ns, 315 576 000 000.999999999 s}; 0..3 violations/links; empty/non-ASCII/control/200+-byte strings; ErrorInfo.metadata with 0/1/2 entries incl. empty key) x with/without metadata x {set_*, add_*} builders; code and message rotate over 17 codes x 4 messages [thorough: full product]. Path: with_error_details[_and_metadata] -> add_header -> hand-written base64+protobuf reader of grpc-status-details-bin (embedded code/message == outer, type URLs, field values) -> from_header_map -> check_/get_error_details, check_/get_error_details_vec, ten get_details_*; the getters are judged again on the status found by Status::from_error behind a foreign error type's source(), on the status read from the same headers with the details value base64-PADDED (a peer that pads), and on the status a unary caller receives when the peer sends it in trailers after response headers. Non-trivial = at least one detail attached",
         set_cases(tier),
         |c: &SetCase| format!("kinds={:?} var={} code={} msg={:?} md={} style={}", (0..10).filter(|k| c.mask & (1 << k) != 0).map(|k| KINDS[k]).collect::<Vec<_>>(), c.var, code_name(c.code as i32), crate::explore::truncate(MSGS[c.msg as usize], 30), c.md, c.style),
         set_body,
